@@ -26,13 +26,29 @@ pub fn build(case: &Value) -> Built {
     let user: &[u8] = if case["pwrel"] == "empty-user" { b"" } else { b"userpw" };
     let h = Handler::new(var, user, b"ownerpw", -3904, ID0, enc_meta);
     let (tid, tgen) = match case["idc"].as_str().unwrap() { "low" => (3u64, 0u64), "gen" => (4, 5), _ => (70000, 0) };
-    let use_xref_stream = place == "string-in-objstm" || place == "xref-stream";
+    let root_objstm = case["root"] == "objstm";
+    let use_xref_stream = place == "string-in-objstm" || place == "xref-stream" || root_objstm;
     let mut d = Doc::new(b"");
     let mut e: Vec<(u64, XEntry)> = vec![(0, XEntry::Free { next: 0, gen: 65535 })];
-    let o = d.obj(1, 0, b"<< /Type /Catalog /Pages 2 0 R /Metadata 5 0 R >>");
-    e.push((1, XEntry::InUse { off: o, gen: 0 }));
-    let o = d.obj(2, 0, &empty_pages_body());
-    e.push((2, XEntry::InUse { off: o, gen: 0 }));
+    if root_objstm {
+        // catalog and page tree root as members of object stream 11, whose data is encrypted as a whole with its own key
+        let cat: &[u8] = b"<< /Type /Catalog /Pages 2 0 R /Metadata 5 0 R >>";
+        let pages = empty_pages_body();
+        let header = format!("1 0 2 {} ", cat.len() + 1);
+        let mut body = header.clone().into_bytes();
+        body.extend_from_slice(cat);
+        body.push(b' ');
+        body.extend_from_slice(&pages);
+        let o = d.stream(11, 0, &format!("/Type /ObjStm /N 2 /First {}", header.len()), &h.encrypt(11, 0, &body), None, false);
+        e.push((11, XEntry::InUse { off: o, gen: 0 }));
+        e.push((1, XEntry::Compressed { container: 11, idx: 0 }));
+        e.push((2, XEntry::Compressed { container: 11, idx: 1 }));
+    } else {
+        let o = d.obj(1, 0, b"<< /Type /Catalog /Pages 2 0 R /Metadata 5 0 R >>");
+        e.push((1, XEntry::InUse { off: o, gen: 0 }));
+        let o = d.obj(2, 0, &empty_pages_body());
+        e.push((2, XEntry::InUse { off: o, gen: 0 }));
+    }
     // metadata stream (object 5): encrypted unless EncryptMetadata is false
     let meta_pt: Vec<u8> = if place == "metadata-stream" { pt.clone() } else { b"<x:xmpmeta/>".to_vec() };
     let meta = if enc_meta { h.encrypt(5, 0, &meta_pt) } else { meta_pt.clone() };
